@@ -346,8 +346,16 @@ class TypeEnv:
                 # unpacking a call result typed Tuple[A, B, ...] loses positions;
                 # use return annotation positions when available
                 pos = self._tuple_positions(fn, value, env) if value is not None else None
+                # unpacking a homogeneous sequence (`_, *tokens = s.split("/")`): every plain target gets the
+                # element type, a starred target a list of it
+                elem = t.elem if (t is not None and getattr(t, "elem", None) is not None and not pos) else None
                 for i, tg in enumerate(target.elts):
-                    self._bind(fn, tg, pos[i] if pos and i < len(pos) else None, None, env)
+                    if elem is not None and isinstance(tg, ast.Starred):
+                        self._bind(fn, tg.value, Ty(frozenset({"list"}), elem), None, env)
+                    elif elem is not None:
+                        self._bind(fn, tg, elem, None, env)
+                    else:
+                        self._bind(fn, tg, pos[i] if pos and i < len(pos) else None, None, env)
 
     def _tuple_positions(self, fn: FuncInfo, value: ast.expr, env: Dict[str, Optional[Ty]]) -> Optional[List[Optional[Ty]]]:
         if isinstance(value, ast.Await):
@@ -402,7 +410,7 @@ class TypeEnv:
             return None
         if env is None:
             env = self.local_types(fn)
-        if isinstance(e, ast.Await):
+        if isinstance(e, (ast.Await, ast.NamedExpr)):
             return self.expr_type(fn, e.value, env)
         if isinstance(e, ast.Constant):
             return self.value_type(e.value)
